@@ -280,6 +280,7 @@ Plan gen_plan(const Profile &pf, uint64_t seed) {
             Op o; o.kind = OP_UTC; o.sig = s.sig; o.prod = s.prod; o.a = id; o.b = utc;
             out.push_back(o);
             int64_t d = r.chance(0.3) ? r.range(1, 10) : r.range(1, 2 * step_hint);
+            if (pf.prop != "C12" && r.chance(0.04)) d = 0;     // a repeated sample id (a logger stamping the latest id while the stream stalls); C12 itself states increasing ids
             id += d;
             double drift = 1.0 + (double) r.range(-200, 200) / 1e6;
             utc += std::max<int64_t>(1, (int64_t) llround((double) d * ticks_per_sample * drift)) ;
@@ -291,12 +292,13 @@ Plan gen_plan(const Profile &pf, uint64_t seed) {
     // The reader and the writer keep definition strings in 1 MiB blocks: some programs carry enough string bytes to cross a block boundary
     // (knob too large for the miss path otherwise); misuse programs rarely pass a single string that cannot fit a block at all.
     const bool long_strings = (pf.prop == "C13" || pf.prop == "C10" || pf.prop == "C17") && r.chance(pf.prop == "C13" ? 0.12 : 0.04);
-    const bool giant_string = pf.misuse && r.chance(0.02);
+    const bool giant_string = (pf.misuse && r.chance(0.02)) || (pf.prop == "C13" && r.chance(0.03));     // C13: a refused definition must leave no trace (identity rules afterwards)
     auto long_len = [&](int cur) { return (long_strings && cur > 0 && r.chance(0.8)) ? (int) r.range(30000, 140000) : cur; };
     for (size_t i = 0; i < srcs.size(); ++i) {
         Op o; o.kind = OP_SRC; o.src = srcs[i]; o.gs = r.next();
         for (int k = 0; k < 5; ++k) { int c = (int) r.below(10); o.sl[k] = c == 0 ? -1 : c == 1 ? 0 : c < 9 ? (int) r.range(1, 24) : (int) r.range(25, 300); o.sl[k] = long_len(o.sl[k]); }
         if (giant_string && i == 0) o.sl[(int) r.below(5)] = (1 << 20) - 6 + (int) r.below(12);
+        if (giant_string && i == 0 && pf.prop == "C13" && r.chance(0.6)) { Op again = o; again.gs = r.next(); for (int k = 0; k < 5; ++k) again.sl[k] = (int) r.range(1, 24); defs_src.push_back(o); o = again; }     // the same id defined again, acceptably
         defs_src.push_back(o);
     }
     struct Stream { std::vector<Op> ops; size_t pos = 0; };
